@@ -266,3 +266,89 @@ func RunSlowReply(c SlowReplyCase) harn.Result {
 	}
 	return harn.Result{NonTrivial: true, Classes: []string{"reply_in_pieces_across_deadline"}}
 }
+
+// ---- C12: "a call whose own context ends returns promptly without disturbing other calls" —
+// also while the transport is busy: its one loop is blocked writing another call's request to
+// a peer that has stopped reading (zero-buffer connection)
+
+type BlockedWriteCase struct {
+	Pending []string // 1..3 calls that were sent and are awaiting replies
+	Victim  int      // which of them is cancelled
+	Blocked string   // the call whose request cannot be written
+}
+
+func GenBlockedWrite(t *rapid.T) BlockedWriteCase {
+	c := BlockedWriteCase{Blocked: rapid.SampledFrom(callKinds).Draw(t, "blocked")}
+	n := rapid.IntRange(1, 3).Draw(t, "n")
+	for i := 0; i < n; i++ {
+		c.Pending = append(c.Pending, rapid.SampledFrom(callKinds).Draw(t, "kind"))
+	}
+	c.Victim = rapid.IntRange(0, n-1).Draw(t, "victim")
+	return c
+}
+
+func RunBlockedWrite(c BlockedWriteCase) harn.Result {
+	r, err := newRig(true, 0)
+	if err != nil {
+		return harn.Fail("session setup failed: %v", err)
+	}
+	defer r.close()
+	e := &muxEngine{r: r}
+	var ps []*pending
+	for i, k := range c.Pending {
+		p := r.start(k, uint32(0x4000+i))
+		ps = append(ps, p)
+		e.all = append(e.all, p)
+		e.trace = append(e.trace, fmt.Sprintf("call %s m%#x", k, p.marker))
+	}
+	seenAll := func() bool {
+		for _, p := range e.all {
+			if !p.seen {
+				return false
+			}
+		}
+		return true
+	}
+	if err := e.absorb(seenAll); err != nil {
+		return harn.Result{Err: err}
+	}
+	r.srv.Pause() // the peer stops reading
+	e.trace = append(e.trace, "server stops reading")
+	// the peer's reader may already sit in a Read: the first further request is still taken, the second cannot be written
+	first := r.start("clunk", 0x40ff)
+	time.Sleep(time.Millisecond)
+	blocked := r.start(c.Blocked, 0x4100)
+	e.trace = append(e.trace, fmt.Sprintf("call clunk m%#x; call %s m%#x (its request cannot be written)", first.marker, c.Blocked, blocked.marker))
+	time.Sleep(2 * time.Millisecond)
+	v := ps[c.Victim]
+	e.trace = append(e.trace, fmt.Sprintf("cancel m%#x", v.marker))
+	t0 := time.Now()
+	v.cancel()
+	if !v.wait(5 * time.Second) {
+		return harn.Result{Err: e.fail("call %s (marker %#x), pending, did not return within 5s after its context was cancelled while the transport was writing another call's request to a peer that is not reading", v.kind, v.marker)}
+	}
+	took := time.Since(t0)
+	if !errors.Is(v.res.err, context.Canceled) {
+		return harn.Result{Err: e.fail("cancelled call returned err=%v", v.res.err)}
+	}
+	// the peer reads again: everything else completes
+	r.srv.Resume()
+	e.all = append(e.all, first, blocked)
+	if err := e.absorb(seenAll); err != nil {
+		return harn.Result{Err: err}
+	}
+	for _, p := range append(ps, first, blocked) {
+		if p == v {
+			continue
+		}
+		r.srv.Send(goodReply(p.kind, p.tag, p.marker))
+		if err := e.checkReturn(p, false); err != nil {
+			return harn.Result{Err: err}
+		}
+	}
+	res := harn.Result{NonTrivial: true, Classes: []string{"cancel_while_transport_blocked_in_write"}}
+	if took > time.Second {
+		res.Classes = append(res.Classes, "slow_cancel")
+	}
+	return res
+}
